@@ -44,6 +44,7 @@ K_STRAY = "on-down-overtaken-by-on-up-leaves-reconnector-next-down-is-silent"
 K_ADD_PARTIAL = "partial-pool-failure-in-on-add-discounted-host-left-down-without-reconnector"
 K_UNKNOWN_DOWN = "host-of-unknown-state-marked-down-without-reconnector"
 K_ORPHAN = "reconnection-handler-completion-clears-the-slot-of-a-newer-handler-two-series"
+K_STALE_CLEANUP = "failed-on-up-of-a-removed-host-object-tears-down-the-readded-host-of-the-same-address"
 K_ONUP_STUCK = "on-up-completion-callback-races-with-futures-set-host-never-marked-up"
 
 
@@ -94,10 +95,12 @@ def run_history(seed):
     rng = random.Random(seed)
     random.seed(seed)
     n_nodes = rng.choice([2, 3, 3])
-    family = rng.choices(['random', 'midconnect', 'updown'], [55, 20, 25])[0]
+    family = rng.choices(['random', 'midconnect', 'updown', 'readd'], [45, 18, 22, 15])[0]
     n_sessions = rng.choice([0, 1, 1, 2, 2, 3])
     if family == 'updown':
         n_sessions = rng.choice([2, 2, 3])
+    if family == 'readd':
+        n_sessions = rng.choice([1, 1, 2])
     proto = rng.choice([4, 4, 3, 2])
     max_attempts = rng.choice([None, None, None, 2])
     n_events = rng.randint(4, 14)
@@ -111,6 +114,7 @@ def run_history(seed):
     env = SimEnv(ch, addresses=addrs, max_virtual_time=3000.0)
     w = env.world
     plan = {}
+    hold_pool = {}                   # address -> number of pool-init connections whose SUPPORTED is still to be kept back
     hold_reconn = {}                 # address -> number of reconnector connections whose SUPPORTED is still to be kept back
     fail_pool = {}                   # address -> number of pool-init connections still to be reset at STARTUP
     notes = []                       # (t, who, what, address)   who = 'listener' | 'policy'
@@ -119,6 +123,12 @@ def run_history(seed):
 
     def behaviour(node, cstate, req):
         a = node.address
+        if req['op'] == 'OPTIONS' and hold_pool.get(a, 0) > 0 and cstate.conn.sim_creator == 'pool-init':
+            # a pool that on_up / on_add is building: connected at the node, handshake answer kept back (the scenario later resets the connection)
+            hold_pool[a] -= 1
+            counters['pool_connections_held_mid_connect'] += 1
+            r = node.default_reaction(cstate, req)
+            return ('hold', r[1])
         if req['op'] == 'OPTIONS' and hold_reconn.get(a, 0) > 0 and cstate.conn.sim_creator == 'reconnector':
             # the reconnection attempt is connected at the node, its handshake answer is kept back until the scenario releases it
             hold_reconn[a] -= 1
@@ -203,7 +213,7 @@ def run_history(seed):
         return None if last is None else bool(last.is_host_addition)
 
     uids = iter(range(1, 100000))
-    counters = {'quiescent_checks': 0, 'down_host_checks': 0, 'handlers_seen': 0, 'reconnector_conns': 0, 'removals_observed': 0, 'reconnection_attempts_held_mid_connect': 0, 'removals_while_an_attempt_was_mid_connect': 0, 'on_up_with_2plus_sessions': 0,
+    counters = {'quiescent_checks': 0, 'down_host_checks': 0, 'handlers_seen': 0, 'reconnector_conns': 0, 'removals_observed': 0, 'reconnection_attempts_held_mid_connect': 0, 'pool_connections_held_mid_connect': 0, 'same_address_added_again_as_new_host_object': 0, 'removals_while_an_attempt_was_mid_connect': 0, 'on_up_with_2plus_sessions': 0,
                 'final_hosts': 0, 'final_hosts_of_unknown_state': 0, 'final_pools': 0, 'notifications': 0}
 
     # observe Host.get_and_set_reconnection_handler from outside: which handler loses the host's slot to the completion callback of another one
@@ -278,6 +288,13 @@ def run_history(seed):
                     out.setdefault(id(h_), []).append(rh)
             return out
 
+        def stale_down_after_add(h_):
+            # the cluster ran down-handling for a previous Host object of the same address after this object had become the member
+            idx = [i_ for i_, n_ in enumerate(notes) if n_[1] == 'policy' and n_[2] == 'add' and n_[4] == id(h_)]
+            if not idx:
+                return False
+            return any(n_[1] == 'policy' and n_[2] == 'down' and n_[3] == h_.endpoint.address and n_[4] != id(h_) for n_ in notes[idx[0] + 1:])
+
         def held_by_address(a_):
             return any((not hh.done) and hh.req['op'] == 'OPTIONS' and hh.node.address == a_ and not hh.conn.is_closed and hh.conn.sim_creator == 'reconnector'
                        for hh in env.net.held)
@@ -338,8 +355,16 @@ def run_history(seed):
         # ---------------- the history
         def release_handshakes():
             for hh in list(env.net.held):
-                if not hh.done and hh.req['op'] == 'OPTIONS':
+                if not hh.done and hh.req['op'] == 'OPTIONS' and hh.conn.sim_creator != 'pool-init':
                     hh.release()
+
+        def fail_held_pool_connections(a_=None):
+            # the node resets the pool connections whose handshake it has kept back: the pool creation fails now
+            for hh in list(env.net.held):
+                if not hh.done and hh.req['op'] == 'OPTIONS' and hh.conn.sim_creator == 'pool-init' and (a_ is None or hh.node.address == a_):
+                    hh.drop()
+                    if not hh.conn.is_closed:
+                        env.net.server_close(hh.conn, reset=True)
 
         def held_attempts(a_):
             return [hh for hh in env.net.held if not hh.done and hh.req['op'] == 'OPTIONS' and hh.node.address == a_ and not hh.conn.is_closed]
@@ -360,6 +385,19 @@ def run_history(seed):
             if rng.random() < 0.7:
                 script += [('advance', x, rng.choice([0.2, 0.5]))]
             script += [('release', x, None), ('settle', x, None), ('advance', x, 0.5)]
+            script += [(None, None, None)] * rng.randint(0, 3)
+        elif family == 'readd':
+            # a host goes down and is reconnected; while on_up's pool connections sit in their handshake the host is removed and the same address is
+            # added again (a new Host object); then the old object's pool connections fail
+            x = rng.choice(others)
+            script = [('kill_all', x, None), ('settle', x, None), ('hold_pool', x, n_sessions), ('advance', x, 1.1), ('settle', x, None),
+                      (rng.choice(['remove', 'hide_refresh']), x, None), ('settle', x, None)]
+            if rng.random() < 0.5:
+                script += [('advance', x, 0.2)]
+            script += [(rng.choice(['show_refresh', 'new_node']), x, None), ('settle', x, None)]
+            if rng.random() < 0.5:
+                script += [('advance', x, 0.3)]
+            script += [('fail_held', x, None), ('settle', x, None), ('advance', x, 1.1), ('settle', x, None), ('advance', x, 1.1), ('settle', x, None)]
             script += [(None, None, None)] * rng.randint(0, 3)
         elif family == 'updown':
             # several sessions: hosts go down and come back (reconnector / STATUS_CHANGE UP) again and again: on_up with one pool future per session
@@ -396,6 +434,10 @@ def run_history(seed):
                 hold_reconn[a] = hold_reconn.get(a, 0) + (arg or 1)
             elif ev == 'release':
                 release_handshakes()
+            elif ev == 'hold_pool':
+                hold_pool[a] = hold_pool.get(a, 0) + (arg or 1)
+            elif ev == 'fail_held':
+                fail_held_pool_connections(a)
             elif ev == 'kill':
                 h = host_of(a)
                 for s in sessions:
@@ -454,7 +496,9 @@ def run_history(seed):
         # ---------------- final phase: everything healthy, ample time
         fail_pool.clear()
         hold_reconn.clear()
+        hold_pool.clear()
         release_handshakes()
+        fail_held_pool_connections()
         for nd in env.net.nodes.values():
             nd.up = True
         w.settle(advance=False)
@@ -468,6 +512,13 @@ def run_history(seed):
         with w.inspect():
             live = live_handlers()
             counters['notifications'] = len(notes)
+            rm_addr = {}
+            for n_ in notes:
+                if n_[1] == 'policy' and n_[2] == 'remove':
+                    rm_addr[n_[3]] = n_[4]
+                elif n_[1] == 'policy' and n_[2] == 'add' and n_[3] in rm_addr and rm_addr[n_[3]] != n_[4]:
+                    counters['same_address_added_again_as_new_host_object'] += 1
+                    del rm_addr[n_[3]]
             counters['on_up_with_2plus_sessions'] = sum(1 for n in notes if n[1] == 'policy' and n[2] == 'up' and n[0] > 0) if n_sessions >= 2 else 0
             counters['reconnector_conns'] = sum(1 for c in env.net.conns if c.sim_creator == 'reconnector')
             counters['handlers_seen'] = len(set(id(getattr(x[1], '__self__', None)) for x in cluster.scheduler.scheduled
@@ -512,7 +563,8 @@ def run_history(seed):
                             others_open = any(s2 is not s and s2._pools.get(h) is not None and not s2._pools.get(h).is_shutdown for s2 in sessions)
                             viol.append(('up-host-without-pool', "host %s is up but session %d has %s for it at the final quiescence" % (
                                 a, si, 'no pool' if pool is None else 'a shut-down pool'),
-                                {'pool': None if pool is None else 'shutdown', 'another_session_has_open_pool': others_open, 'sessions': n_sessions}))
+                                {'pool': None if pool is None else 'shutdown', 'another_session_has_open_pool': others_open, 'sessions': n_sessions,
+                                 'policy_told_down_for_an_older_object_of_this_address_after_this_object_was_added': stale_down_after_add(h)}))
         # ---------------- offline: notification sequences
         for who in ('listener', 'policy'):
             per = {}
@@ -577,6 +629,8 @@ def classify(v, info):
     mech, what, d = v
     if mech == 'observer-not-told-up' and d.get('who') == 'listener' and d.get('pools_needed') == 0 and d.get('last') == 'down':
         return K_ITEM31
+    if mech == 'up-host-without-pool' and d.get('pool') is None and d.get('policy_told_down_for_an_older_object_of_this_address_after_this_object_was_added'):
+        return K_STALE_CLEANUP
     if mech == 'up-host-without-pool' and d.get('pool') == 'shutdown' and d.get('another_session_has_open_pool') and d.get('sessions', 0) >= 2:
         return K_DISCOUNT
     if mech == 'up-host-without-pool' and d.get('pool') == 'shutdown' and not d.get('another_session_has_open_pool') and info['proto'] < 3:
@@ -619,7 +673,7 @@ def run(ctx):
     shim.import_cluster()
     from vlib.run import Inconclusive
     from sim.world import WorldLimit, WorldHang
-    ctx.rule = ("a case is one seeded history from three families (random events / a host removed while a reconnection attempt for it is mid-connect, "
+    ctx.rule = ("a case is one seeded history from four families (random events / a host removed and its address added again as a new Host object while the old object's on_up pools are mid-connect and then fail / a host removed while a reconnection attempt for it is mid-connect, "
                 "plain and host-addition reconnector / repeated down-up cycles with 2-3 sessions under priority schedules): 2-3 nodes, 0-3 sessions, protocol v4/v3/v2, reconnection schedule (unbounded / 2 attempts), 4-14 events from "
                 "{pool connection reset, node crash, node back, STATUS_CHANGE UP/DOWN, TOPOLOGY_CHANGE REMOVED_NODE/NEW_NODE, hide/show in system.peers + "
                 "refresh, next pool connection fails, time passes}, schedule; distinct by event-order signature of the world trace; non-trivial = at "
@@ -664,4 +718,4 @@ def run(ctx):
             ctx.sample({"seed": seed, "events": info['events'], "notifications": info['notes'][-16:], "counters": counters})
     ctx.floor_distinct = 40 if ctx.quick else 1500
     ctx.floor_counters = {"histories": 40, "quiescent_checks": 200, "down_host_checks": 30, "handlers_seen": 30, "reconnector_conns": 30, "final_pools": 30,
-                          "notifications": 200, "removals_while_an_attempt_was_mid_connect": 5, "on_up_with_2plus_sessions": 50}
+                          "notifications": 200, "removals_while_an_attempt_was_mid_connect": 5, "pool_connections_held_mid_connect": 5, "same_address_added_again_as_new_host_object": 10, "on_up_with_2plus_sessions": 50}
